@@ -80,11 +80,12 @@ func main() {
 	}
 
 	r.Rule("explicit-state BFS over event sequences executed on the real tproxy.c (engine K): per scenario (side LAN-ingress|WAN-egress x family v4|v6|v6+hop-by-hop+dstopts x L2|L3 x ordered pair of rule programs x bpf_redirect|bpf_redirect_peer) ALL sequences up to the scenario depth over the alphabet " +
-		"{frame(hook, flow, kind, variant), tick +2s|+10s|+11s|+120s|+121s (+119s), swap rule program, learn domain for the destination, flip health bit of g1 tcp|udp, conn_state_map full} are run, de-duplicated on (contents of conn_state_map, routing_handoff_map, redirect_track with last-seen stamps as exact ages saturated above the largest threshold that reads them, rule program, domain entry, health bits, map-full flag, model state). " +
-		"Every frame is injected from the same snapshot once per header-parsing path (direct packet access / byte-load fallback; truncated frames additionally with a lenient pull) and both runs must give the same verdict and map state; every run is compared with the reference model of the statement; every redirect is followed into dae0peer ingress; every hand-over record is read back through bpfTuplesKeyFromAddrPorts + bpfConnState/bpfRoutingHandoffEntry + routingResultFromConnState + routingHandoffExpired. " +
+		"{frame(hook, flow, kind, variant), tick +2s|+10s|+11s|+120s|+121s (+119s), swap rule program, learn domain for the destination, flip health bit of g1 (id 2) or of the high-id group (id 43|45|251) tcp|udp, conn_state_map full, a burst of two datagrams of one flow redirected before dae reads either record} are run, de-duplicated on (contents of conn_state_map, routing_handoff_map, redirect_track with last-seen stamps as exact ages saturated above the largest threshold that reads them, rule program, domain entry, health bits, map-full flag, model state). " +
+		"Every frame is injected from the same snapshot once per header-parsing path (direct packet access / byte-load fallback; truncated frames additionally with a lenient pull) and both runs must give the same verdict and map state; every run is compared with the reference model of the statement; every redirect is followed into dae0peer ingress; every hand-over record is read back, once per redirected frame and after the last frame of the event, by the production controlPlaneCore.RetrieveRoutingResult running on real BPF hash maps loaded with the bytes the C program wrote. " +
 		"states = distinct (kernel state, model state) pairs; transitions = event applications; traces_validated_against_impl = transitions (each is the last step of a distinct event sequence executed on the C program)")
 	r.Assume("engine K: tproxy.c compiled natively and run under a helper/map shim: no verifier/JIT, one CPU (no races between hooks, publish_routing_meta ordering not exercised), bpf_redirect / bpf_redirect_peer / bpf_sk_assign are recorded, not performed; no kernel conntrack")
 	r.Assume("the routing DECISION for a first packet is taken from the real userspace matcher (ControlPlane.Route) as the property prescribes; rule programs use domain/l4proto/pname/fallback rules only (no LPM sets); C02 ties route() to the matcher in general")
+	r.Assume("the control plane reads a hand-over record 1 ms (virtual) after the last frame of the event that redirected it; at most two datagrams of a flow are in flight; its reads run on real kernel BPF hash maps (needs CAP_BPF), the hand-over stamp moved from the virtual clock onto CLOCK_MONOTONIC with its age kept")
 	r.Assume("the userspace janitor (which also deletes expired entries) and the control plane's own writes to conn_state_map are not running; 'the control plane learns a domain' is modelled as the domain_routing_map entry buildDomainRoutingOwnerSnapshot produces for the ACTIVE rule program (re-learned on reload)")
 	r.Assume("idle time is measured at the tick granularity used (>= 2 s), so the kernel's lazy (1 s) timestamp refresh is not visible; tracking ends when idle time is strictly greater than the documented timeout (120 s / 10 s after FIN or RST / 120 s UDP)")
 	r.Assume("where the statement fixes no verdict (mid-flow TCP segment of an untracked connection, non-initial fragment, truncated frame) the check demands: pass or drop, never a redirect, nothing created, same result on both parsing paths")
@@ -101,7 +102,12 @@ func main() {
 		if err != nil {
 			broken("%v", err)
 		}
-		envs = append(envs, &kenv{k: k, progs: progs})
+		ks, cs, hs := k.sizes["conn_state_map"], k.sizes["conn_state_map"].val, k.sizes["routing_handoff_map"].val
+		mir, err := control.VerifC03NewMirror(uint32(ks.key), uint32(cs), uint32(hs))
+		if err != nil {
+			broken("%v", err)
+		}
+		envs = append(envs, &kenv{k: k, mir: mir, progs: progs})
 	}
 
 	budget := r.Budget(150*time.Second, 17*time.Minute)
@@ -243,6 +249,14 @@ func specsFor(thorough bool) []scenSpec {
 				scenSpec{side: side, v6: true, l2: true, short: true, a: "proxy", b: "dmark", depth: d},
 			)
 		}
+		// proxy groups with high outbound ids next to the low-id group g1 (health bits of both written through the
+		// control plane's key function)
+		specs = append(specs,
+			scenSpec{side: sideLAN, l2: true, a: "hi43", b: "proxy", depth: 3},
+			scenSpec{side: sideWAN, l2: true, a: "hi45", b: "proxy", depth: 3},
+			scenSpec{side: sideLAN, v6: true, l2: true, a: "hi251", b: "pmark", depth: 3},
+			scenSpec{side: sideWAN, v6: true, l2: true, a: "hi43", b: "direct", depth: 3},
+		)
 	} else {
 		// most valuable first: the time budget may cut the tail (reported as caps_hit, exhaustive=false)
 		for _, side := range []int{sideLAN, sideWAN} {
@@ -270,6 +284,12 @@ func specsFor(thorough bool) []scenSpec {
 					v.side, v.a, v.b, v.depth, v.rich = side, p[0], p[1], 4, true
 					specs = append(specs, v)
 				}
+			}
+		}
+		for _, side := range []int{sideLAN, sideWAN} {
+			for i, h := range []string{"hi43", "hi45", "hi251"} {
+				specs = append(specs, scenSpec{side: side, v6: i == 1, l2: true, a: h, b: "proxy", depth: 4})
+				specs = append(specs, scenSpec{side: side, v6: i != 1, l2: i != 2, a: "pmark", b: h, depth: 4})
 			}
 		}
 		// deeper still, last: cut first when the machine is slow
@@ -329,12 +349,16 @@ func replay(r *vlib.Run, progs []*ruleProgram, kdrv string) {
 			if err != nil {
 				broken("%v", err)
 			}
-			e := &kenv{k: k, progs: progs}
+			mir, err := control.VerifC03NewMirror(uint32(k.sizes["conn_state_map"].key), uint32(k.sizes["conn_state_map"].val), uint32(k.sizes["routing_handoff_map"].val))
+			if err != nil {
+				broken("%v", err)
+			}
+			e := &kenv{k: k, mir: mir, progs: progs}
 			x := &explorer{sc: sc, envs: []*kenv{e}}
 			e.boot(sc)
 			m := x.initialModel()
 			for _, p := range path[:len(path)-1] {
-				sc.step(m, &sc.events[p])
+				sc.stepAll(m, &sc.events[p])
 			}
 			x.expand(e, &node{path: path[:len(path)-1], model: m})
 			k.close()
